@@ -1,0 +1,106 @@
+//! Verification hooks, compiled only with the `verif-hooks` feature.
+//!
+//! Off by default; with the feature off none of this exists and the shipped
+//! behaviour is unchanged. With it on, a deterministic simulator can
+//!
+//! - install a thread-local virtual clock that [`crate::utils::now_ms`] returns
+//!   instead of the process clock,
+//! - install a thread-local seeded byte source that replaces the `rand::rng()`
+//!   fill used for the SRTLA group id and the probe id,
+//! - read the guard-private (`pub(crate)`) stall state of a connection and
+//!   erase it on a clone.
+//!
+//! Nothing here is consulted unless a source has been installed on the calling
+//! thread, so the repository's own tests behave identically with the feature on.
+
+use std::cell::{Cell, RefCell};
+
+use crate::connection::SrtlaConnection;
+
+type ByteSource = Box<dyn FnMut(&mut [u8])>;
+
+thread_local! {
+    static CLOCK: Cell<Option<u64>> = const { Cell::new(None) };
+    static BYTES: RefCell<Option<ByteSource>> = const { RefCell::new(None) };
+}
+
+/// Install (or with `None` remove) the virtual clock for this thread.
+pub fn set_clock(now_ms: Option<u64>) {
+    CLOCK.with(|c| c.set(now_ms));
+}
+
+/// The installed virtual time, if any.
+#[inline]
+pub fn clock_override() -> Option<u64> {
+    CLOCK.with(|c| c.get())
+}
+
+/// Install (or with `None` remove) the seeded byte source for this thread.
+pub fn set_byte_source(src: Option<ByteSource>) {
+    BYTES.with(|b| *b.borrow_mut() = src);
+}
+
+/// Overwrite `buf` from the seeded source if one is installed; otherwise leave
+/// the bytes the caller already drew from `rand::rng()`.
+pub fn seeded_fill(buf: &mut [u8]) {
+    BYTES.with(|b| {
+        if let Some(src) = b.borrow_mut().as_mut() {
+            src(buf);
+        }
+    });
+}
+
+/// Guard-private fields of a connection that have no public accessor.
+#[derive(Debug, Clone, Copy, PartialEq)]
+pub struct VerifPrivate {
+    pub stall_gated: bool,
+    pub stall_latched_since_ms: u64,
+    pub stall_recovery_since_ms: u64,
+    pub stall_gate_events: u64,
+    pub stall_probe_counter: u32,
+    pub silence_pulled: bool,
+    pub silence_pulls: u64,
+    pub conn_timeout_ms: u64,
+    pub quality_multiplier: f64,
+    pub quality_last_calculated_ms: u64,
+    pub highest_acked_seq: i32,
+}
+
+impl SrtlaConnection {
+    /// Read the fields that are `pub(crate)` in every build.
+    pub fn verif_private(&self) -> VerifPrivate {
+        VerifPrivate {
+            stall_gated: self.stall_gated,
+            stall_latched_since_ms: self.stall_latched_since_ms,
+            stall_recovery_since_ms: self.stall_recovery_since_ms,
+            stall_gate_events: self.stall_gate_events,
+            stall_probe_counter: self.stall_probe_counter,
+            silence_pulled: self.silence_pulled,
+            silence_pulls: self.silence_pulls,
+            conn_timeout_ms: self.conn_timeout_ms,
+            quality_multiplier: self.quality_cache.multiplier,
+            quality_last_calculated_ms: self.quality_cache.last_calculated_ms,
+            highest_acked_seq: self.highest_acked_seq,
+        }
+    }
+
+    /// Erase every trace of stall-guard history (used on a clone to obtain
+    /// "the same links with no stall history at all").
+    pub fn verif_clear_stall_history(&mut self) {
+        self.stall_gated = false;
+        self.stall_latched_since_ms = 0;
+        self.stall_recovery_since_ms = 0;
+        self.stall_gate_events = 0;
+        self.stall_probe_counter = 0;
+        self.silence_pulled = false;
+        self.silence_pulls = 0;
+        self.last_ack_or_rtt_sample_ms = 0;
+    }
+
+    /// Keys of the outstanding-packet log, sorted.
+    pub fn verif_packet_log_keys(&self) -> Vec<i32> {
+        let mut v: Vec<i32> = self.packet_log.keys().copied().collect();
+        v.sort_unstable();
+        v
+    }
+}
